@@ -717,3 +717,88 @@ Proof.
 Qed.
 
 End LabelRoute.
+
+(* ------------------------------------------------------------------------------------------ *)
+(** * 7. The components the model computes are extracted from their own id list *)
+
+Lemma extract_cc_self g ids c : extract_cc g ids = Some c -> extract_cc g (c_ids c) = Some c.
+Proof. intros H. now rewrite (extract_cc_ids g ids c H). Qed.
+
+Lemma all_ccs_fuel_extract : forall fuel g s ccs, all_ccs_fuel fuel g s = Some ccs ->
+  forall c, In c ccs -> extract_cc g (c_ids c) = Some c.
+Proof.
+  induction fuel as [|fuel IH]; intros g s ccs H c Hc; cbn [all_ccs_fuel] in H.
+  - injection H as <-. destruct Hc.
+  - destruct (next_cc g s) as [[s' [c0|]]|] eqn:E; try discriminate.
+    + destruct (all_ccs_fuel fuel g s') as [l|] eqn:E2; [|discriminate]. injection H as <-.
+      destruct Hc as [<-|Hc]; [|exact (IH g s' l E2 c Hc)].
+      unfold next_cc in E. destruct (g_ids g); [discriminate|].
+      destruct (Nat.eqb (next_arg s) (length (in_cc s))); [discriminate|].
+      destruct (find_cc g s (next_arg s)) as [s1 ids]. injection E as _ E.
+      exact (extract_cc_self g ids c0 E).
+    + injection H as <-. destruct Hc.
+Qed.
+
+Lemma merged_cc_extract g s al s' c : merged_cc_of g s al = Some (s', c) ->
+  extract_cc g (c_ids c) = Some c.
+Proof.
+  unfold merged_cc_of. destruct (existsb _ al); [discriminate|].
+  destruct (fold_left _ al (s, [])) as [s1 ids].
+  destruct (extract_cc g ids) as [c0|] eqn:E; [|discriminate].
+  intros [= _ <-]. exact (extract_cc_self g ids c0 E).
+Qed.
+
+Section ModelComponents.
+Variable L : Type.
+Variable leqb : L -> L -> bool.
+Hypothesis leqb_spec : forall x y, leqb x y = true <-> x = y.
+Notation reachable := (GroundedProofs.reachable L leqb).
+
+Lemma decomp_good_ids (f : fw L) ccs c :
+  decomp_ok (CompProofs.af_of f) ccs -> In c ccs -> good_ids L f (c_ids c).
+Proof.
+  intros Hok Hc. split.
+  - apply (NoDup_concat_elt (map c_ids ccs)); [exact (d_nodup _ _ Hok)|now apply in_map].
+  - intros a Ha. apply (d_cover _ _ Hok a). apply in_concat. exists (c_ids c).
+    split; [now apply in_map|exact Ha].
+Qed.
+
+(* two live arguments of a reachable store never carry the same label *)
+Theorem reachable_labels_distinct (f : fw L) : reachable f ->
+  NoDup (map snd (iter_args L f)) /\
+  forall a b l, In (a, l) (iter_args L f) -> In (b, l) (iter_args L f) -> a = b.
+Proof.
+  intros Hr. pose proof (reach_inv L leqb leqb_spec f Hr) as Hinv. split.
+  - exact (inv_lab L f Hinv).
+  - intros a b l Ha Hb. exact (NoDup_snd_inj _ _ _ a b l (inv_lab L f Hinv) Ha Hb).
+Qed.
+
+Theorem all_comps_model (f : fw L) : reachable f ->
+  forall c, In c (all_comps (view_of_fw f)) -> model_comp L f c /\ max_argument_id L f <> None.
+Proof.
+  intros Hr c Hc. pose proof (reach_inv L leqb leqb_spec f Hr) as Hinv.
+  pose proof (view_good_store L leqb leqb_spec f Hr) as Hv.
+  pose proof (all_comps_decomp _ _ Hv) as Hok.
+  assert (Hg : good_ids L f (c_ids c)) by exact (decomp_good_ids f _ c Hok Hc).
+  unfold all_comps in Hc. destruct (all_ccs (view_of_fw f)) as [ccs|] eqn:E; [|destruct Hc].
+  split; [split; [exact Hg|]|].
+  - unfold all_ccs, remaining_ccs in E. exact (all_ccs_fuel_extract _ _ _ _ E c Hc).
+  - destruct (all_ccs_classes _ _ ccs (proj2 Hv) E c Hc) as [Hne _].
+    destruct (c_ids c) as [|a r] eqn:Ec; [congruence|].
+    apply (live_has_max L f a Hinv). apply (proj2 Hg). now left.
+Qed.
+
+Theorem merged_comps_model (f : fw L) al : reachable f -> max_argument_id L f <> None ->
+  (forall a, In a al -> In a (live_ids L f)) ->
+  forall c, In c (merged_comps (view_of_fw f) al) -> model_comp L f c.
+Proof.
+  intros Hr Hmax Hal c Hc.
+  pose proof (view_good_store L leqb leqb_spec f Hr) as Hv.
+  destruct (vg_merged _ _ al Hv Hal) as [s' [c0 [la [rest [H1 [_ [_ [_ [H2 H3]]]]]]]]].
+  rewrite (merged_comps_eq _ al s' c0 rest H1 H2) in Hc.
+  split; [exact (decomp_good_ids f _ c H3 Hc)|].
+  destruct Hc as [<-|Hc]; [exact (merged_cc_extract _ _ _ _ _ H1)|].
+  unfold remaining_ccs in H2. exact (all_ccs_fuel_extract _ _ _ _ H2 c Hc).
+Qed.
+
+End ModelComponents.
